@@ -109,7 +109,9 @@ struct Runner {
         int n = int( prog.size());
         std::vector<std::vector<OpRecord>> recs( n );
         std::ostringstream head;
-        head << "CASE " << id << ' ' << fx.spec() << '\n';
+        // `--spec X` lets the check choose the specification the history is judged against (e.g. the concurrent
+        // map specification whose payload updates are not atomic with the operation)
+        head << "CASE " << id << ' ' << ( args.opt.count( "spec" ) ? args.opt.at( "spec" ) : fx.spec()) << '\n';
         head << "# family=" << Fixture::family() << " variant=" << c.variant << " seed=" << c.seed << " index=" << c.index
              << " mode=" << modename << " threads=" << n;
         for ( int t = 0; t < n; ++t )
